@@ -25,6 +25,7 @@ type Obligation struct {
 	Pos    string
 	Inputs []NamedValue // symbolic inputs of the function under verification (for replay)
 	Entry  *State       // state at function entry (initial heap for model extraction)
+	PrePC  *Term        // cover-call: path condition just before the call
 }
 
 type NamedValue struct {
@@ -88,12 +89,14 @@ type Exec struct {
 	topAssigns   []assignEntry
 	panicAllowed *Term
 	returns      int
+	specForks    int
 	pruner       *Pruner
 	pruneQueries int
 	pruneCuts    int
 	inlineAll    int  // >0: bounded lemma: callees are inlined (contracts ignored), loops unrolled up to this bound
 	tolerant     bool // executing package initialisers: unknown calls yield unknown values
 	initBase     int
+	inOldSpec    bool
 	oldState     *State // entry state of the call whose ensures is being evaluated (ghost_old_* accessors)
 	freshBase    *Term  // "allocated during the call" threshold while a callee's ensures is being assumed
 }
@@ -488,7 +491,7 @@ func (e *Exec) runBlock(st *State, fr *Frame, b *ssa.BasicBlock, prev *ssa.Basic
 				}
 				return e.runBlock(st, fr, b.Succs[1], b, 0)
 			}
-			if e.paths >= pruneAfter && e.discovery == 0 {
+			if e.paths >= pruneAfter && e.discovery == 0 && e.specMode == 0 {
 				if e.pruner == nil {
 					e.pruner = NewPruner()
 				}
@@ -502,7 +505,14 @@ func (e *Exec) runBlock(st *State, fr *Frame, b *ssa.BasicBlock, prev *ssa.Basic
 					return e.runBlock(st, fr, b.Succs[0], b, 0)
 				}
 			}
-			e.paths++
+			if e.specMode == 0 {
+				e.paths++
+			} else {
+				e.specForks++
+				if e.specForks > 40*e.maxPaths {
+					panic(unsupported("spec evaluation fork limit exceeded in " + e.curFn))
+				}
+			}
 			if forkStats != nil {
 				if k := fnName(fr.fn) + relPos(fr.fn, x.Pos()); forkStats[k+" "+fr.fn.Prog.Fset.Position(x.Cond.Pos()).String()] == 0 {
 					fmt.Fprintf(os.Stderr, "FIRSTFORK %s %s\n   %s\n", k, fr.fn.Prog.Fset.Position(x.Cond.Pos()), showTerm(c, 7))
